@@ -1,12 +1,14 @@
 CONSTANT MaxLen = 7
 CONSTANT MaxK = 6
 CONSTANT Syms = {"A", "B", "C"}
+CONSTANT NIters = {1, 2, 20}
 SPECIFICATION Spec
 INVARIANT TypeOK
 INVARIANT CallsNeverFail
 INVARIANT ResetIsFresh
 INVARIANT OutputsAsFresh
 INVARIANT ScheduleOK
+INVARIANT PeriodWeights
 INVARIANT StepIsSince
 PROPERTY ResetRestoresInit
 PROPERTY ReuseKeepsWeights
